@@ -71,6 +71,45 @@ def rejected_tail_call_programs():
     return out
 
 
+def handler_history_programs():
+    """an error B that was handled - and whose handler ended in an error - INSIDE the handler of another error A, after
+    which A's handler rethrows: the host receives A with A's location and trace.  Returns (single-load programs,
+    two-load histories whose second load calls rethrow outside every handler)"""
+    H = lambda *body: [S("lambda"), [S("c"), S("&rest"), S("r")]] + list(body)
+    As = [[S("error"), Q(S("a")), 1], [S("car"), 5], S("unbound-a"), [S("list"), 1, [S("error"), Q(S("a")), 2]]]
+    Bs = [[S("error"), Q(S("b")), 2], [S("cdr"), 7], S("unbound-b")]
+    inner_handlers = [H([S("rethrow")]), H([S("car"), 6]), H([S("error"), Q(S("in-handler")), 3]), H(Q(S("fine")))]
+    single, double = [], []
+    for a in As:
+        for b in Bs:
+            for ih in inner_handlers:
+                cleanup = [S("ignore-errors"), [S("handler-bind"), [[S("condition"), ih]], [S("progn"), 0, b]]]
+                single.append([[S("defun"), S("work"), [], [S("list"), 0, a]],
+                               [S("handler-bind"), [[S("condition"), H(cleanup, [S("capture")], [S("rethrow")])]], [S("progn"), [S("probe"), Q(S("start"))], [S("work")]]]])
+                # the same clean-up one level further in: a handler of B that itself handles a third error
+                single.append([[S("handler-bind"), [[S("condition"), H([S("ignore-errors"), [S("handler-bind"), [[S("condition"), H(cleanup, [S("rethrow")])]], b]], [S("capture")], [S("rethrow")])]], a]])
+        for ih in inner_handlers[:3]:
+            double.append([[[S("probe"), Q(S("first"))], [S("handler-bind"), [[S("condition"), ih]], [S("list"), 1, a]]], [[S("probe"), Q(S("second"))], [S("list"), 2, [S("rethrow")]]]])
+    return single, double
+
+
+def limit_location_histories(rnd, thorough):
+    """two Loads in one runtime under a step budget / a cancellation at every small index: whichever evaluation the limit
+    ends, at whichever form, the error is located at the form that was about to be evaluated - inside THAT source"""
+    first = [[S("defun"), S("g"), [S("x")], [S("list"), S("x")]], [S("g"), 1]]
+    seconds = [[[S("g"), 2]], [[S("list"), 1, [S("g"), 2]], [S("g"), [S("g"), 3]]], [7, [S("g"), 4]],
+               [[S("defun"), S("lp"), [S("n")], [S("if"), [S("="), S("n"), 0], Q(S("done")), [S("lp"), [S("-"), S("n"), 1]]]], [S("lp"), 3]],
+               [[S("let"), [[S("a"), [S("g"), 5]]], [S("handler-bind"), [[S("condition"), [S("lambda"), [S("c"), S("&rest"), S("r")], Q(S("h"))]]], [S("g"), S("a")]]]]]
+    out = []
+    top = 44 if thorough else 30
+    for sec in seconds:
+        for b in range(1, top):
+            out.append(([first, sec], {"budget": b}))
+        for c in range(1, 2 * top, 1 if thorough else 2):
+            out.append(([first, sec], {"cancel": c}))
+    return out
+
+
 def run(tier):
     V = Verdict("C18", tier)
     work = Work("C18")
@@ -125,6 +164,20 @@ def _run(V, work, tier):
         recs.append(rec)
         drv.append({"id": i, "seq": srcs, "cfg": {}})
         poss.append(pos)
+    hsingle, hdouble = handler_history_programs()
+    for forms in hsingle:
+        i = len(recs)
+        rec, srcs, pos = mach.prog_with_layout(i, [forms], {}, None, rnd)
+        recs.append(rec)
+        drv.append({"id": i, "seq": srcs, "cfg": {}})
+        poss.append(pos)
+    nplain = len(recs)
+    for evals, cfg in [(e, {}) for e in hdouble] + limit_location_histories(rnd, thorough):
+        i = len(recs)
+        rec, srcs, pos = mach.prog_with_layout(i, evals, cfg, None, rnd)
+        recs.append(rec)
+        drv.append({"id": i, "seq": srcs, "cfg": mach.driver_cfg(cfg)})
+        poss.append(pos)
     n = len(recs)
     model, res = mach.run_machine(work, recs, timeout=3300)
     V.tlc(res, "Machine: %d failing-program candidates with random layout" % n)
@@ -134,14 +187,35 @@ def _run(V, work, tier):
         raise MachineryError("Machine produced %d of %d transcripts" % (len(model), len(recs)))
     real = {r["id"]: r["runs"][0]["evals"] for r in driver_json(binary, ["run"], drv, timeout=3300)}
     nerr, kinds = 0, {}
-    for i in range(n):
+    nlim = 0
+    for i in range(nplain, n):
+        for k, (me, re_) in enumerate(zip(model[i], real[i])):
+            d = mach.compare_eval(me, re_)
+            if d:
+                V.notes.append("limit history %d evaluation %d: transcript differs (%s) - not a location verdict" % (i, k, d))
+                break
+            if me["v"]["t"] != "err":
+                continue
+            err = re_["err"]
+            nlim += 1
+            kinds[err["cond"]] = kinds.get(err["cond"], 0) + 1
+            mloc = poss[i].get(me["v"]["i"])
+            f = err.get("file") or ""
+            rloc = (int(f[1:]) if f[:1] == "t" and f[1:].isdigit() else f, err.get("line"), err.get("col")) if err.get("line") else None
+            if mloc != rloc or (not drv[i]["cfg"] and me["v"].get("s") != err["cond"]):
+                V.add(None, (("an error is not located inside the source being loaded: evaluation %d" if not drv[i]["cfg"] else "a limit error is not located at the form that was about to be evaluated: evaluation %d") + " (%s, %s) ends in %s located at %s, the form stands at %s") % (
+                    k, drv[i]["cfg"], "source t%d" % k, err["cond"], rloc, mloc), {"seq": drv[i]["seq"], "cfg": drv[i]["cfg"], "evaluation": k, "real": rloc, "expected": mloc})
+    V.coverage["limit_error_locations"] = nlim
+    for i in range(nplain):
         me, re_ = model[i][0], real[i][0]
         src = drv[i]["seq"][0]
         d = mach.compare_eval(me, re_)
-        if d:
+        if d and not (me["v"]["t"] == "err" and re_["v"]["t"] == "err"):
             # value-level disagreement belongs to C01/C02; it makes the location comparison meaningless here
             V.notes.append("program %d: transcript differs (%s) - not a location verdict" % (i, d))
             continue
+        # (both end in an error: which error the host receives, where it is located and what its trace lists IS this
+        # property, whatever else differs - a rethrow that hands over another error than the one being handled shows here)
         if me["v"]["t"] != "err":
             continue
         nerr += 1
@@ -168,7 +242,7 @@ def _run(V, work, tier):
                     V.add(None, "location / trace changed between the handler and the host after rethrow", {"src": src, "in_handler": a, "at_host": err})
         if nerr % 60 == 1:
             V.sample({"condition": err["cond"], "location": rloc[1:] if rloc else None, "stack": rs[:4], "source_excerpt": src[-300:]})
-    if nerr < n // 6:
+    if nerr < nplain // 6:
         raise MachineryError("only %d of %d programs ended in an error: the family is not exercising the property" % (nerr, n))
     V.coverage["failing_programs"] = nerr
     V.coverage["conditions"] = kinds
